@@ -10,6 +10,7 @@ Record disp_frame (x y : actor) : Prop := {
   df_spec : a_spec y = a_spec x; df_cache : a_cache y = a_cache x;
   df_sq : a_sq y = a_sq x; df_uq : a_uq y = a_uq x; df_paused : a_paused y = a_paused x;
   df_cons : a_cons y = a_cons x; df_pend : a_pend y = a_pend x; df_stash : a_stash y = a_stash x;
+  df_children : a_children y = a_children x; df_zombie : a_zombie y = a_zombie x;
 }.
 
 Ltac df_solve := constructor; cbn; reflexivity.
